@@ -497,7 +497,8 @@ impl<'tcx> TyGenContext<'_, 'tcx> {
                 };
 
                 let layout = match ok {
-                    SuccessType::Unit => crate::js::layout::unit_size_alignment(),
+                    // (a unit arm takes no room in the union)
+                    SuccessType::Unit => std::alloc::Layout::new::<()>(),
                     SuccessType::OutType(ref o) => {
                         crate::js::layout::type_size_alignment(o, self.tcx)
                     }
@@ -506,25 +507,26 @@ impl<'tcx> TyGenContext<'_, 'tcx> {
                             crate::js::layout::type_size_alignment(&err.clone().unwrap(), self.tcx)
                         }
                         ReturnType::Fallible(_, None) | ReturnType::Nullable(_) => {
-                            crate::js::layout::unit_size_alignment()
+                            std::alloc::Layout::new::<()>()
                         }
                         _ => unreachable!("AST/HIR variant {:?} unknown.", return_type),
                     },
                     _ => unreachable!("AST/HIR variant {:?} unknown.", return_type),
                 };
-                // Add size for checking whether or not we're a pass/fail result. And we make sure to see if our error type is bigger, so if we need to add extra width based on that:
-                let size = std::cmp::max(
-                    layout.size(),
-                    match return_type {
-                        // We already account for an error in the Write match up above:
-                        ReturnType::Fallible(_, e) if e.is_some() => {
-                            crate::js::layout::type_size_alignment(&e.clone().unwrap(), self.tcx)
-                                .size()
-                        }
-                        _ => 0,
-                    },
-                ) + 1;
-                let align = layout.align();
+                // The buffer holds a union of the success and error values followed by the is_ok flag:
+                // the union is as aligned as its most aligned member and its size is a multiple of that,
+                // the flag is the byte right after it.
+                let err_layout = match return_type {
+                    // We already account for an error in the Write match up above:
+                    ReturnType::Fallible(_, e) if e.is_some() => {
+                        crate::js::layout::type_size_alignment(&e.clone().unwrap(), self.tcx)
+                    }
+                    _ => std::alloc::Layout::new::<()>(),
+                };
+                let align = std::cmp::max(layout.align(), err_layout.align());
+                let union_size =
+                    std::cmp::max(layout.size(), err_layout.size()).next_multiple_of(align);
+                let size = union_size + 1;
 
                 if requires_buf {
                     method_info.alloc_expressions.push(
